@@ -60,6 +60,9 @@ def call_ref(it, name, args, kwargs, node, fr):
         return K(name.split(".")[-1])
     if name in ("warnings.warn", "builtins.print"):
         return K(None)
+    if name in ("re.findall", "re.sub", "re.split") and all(is_pyconst(a) for a in args) and not kwargs:
+        import re as _re
+        return from_py(getattr(_re, name.split(".")[1])(*[pyval(a) for a in args]))
     if name == "math.ceil":
         return map1(lambda t: mk("ceil", t), args[0])
     return opaque(it, name, args, kwargs, space=_space(*args))
@@ -373,7 +376,9 @@ def call_builtin(it, fn, args, kwargs, node, fr):
         if isinstance(v, Val) and getattr(v, "series", False) and fn == "float":
             it.record("api", "float(Series)", [v], {}, node)
         if fn == "float":
-            return map1(lambda t: t, v)
+            if isinstance(v, Val) and (getattr(v, "decimal_rounded", None) or v.space is not None):
+                return map1(lambda t: t, v)
+            return map1(lambda t: mk("float", t), v)
         r = map1(lambda t: mk("int", t), v)
         return r
     if fn == "str" and args:
@@ -440,7 +445,12 @@ def call_builtin(it, fn, args, kwargs, node, fr):
     if fn == "sorted" and args:
         items = it.iter_items(args[0])
         if items is not None and all(is_pyconst(x) for x in items):
-            return Seq([K(x) for x in sorted(pyval(x) for x in items)], "list")
+            key = kwargs.get("key")
+            rev = bool(pyval(kwargs["reverse"])) if "reverse" in kwargs and is_pyconst(kwargs["reverse"]) else False
+            if key is None:
+                return Seq([K(x) for x in sorted((pyval(x) for x in items), reverse=rev)], "list")
+            if isinstance(key, Ref) and key.name == "builtins.len":
+                return Seq([K(x) for x in sorted((pyval(x) for x in items), key=len, reverse=rev)], "list")
         u = Unk(call("sorted", to_term(args[0])), space=None)
         u.sorted_of = args[0]
         if getattr(args[0], "pos_of", None) is not None:
@@ -1200,6 +1210,17 @@ def seq_method(it, s, name, args, kwargs, node, fr):
         it.record("call", "set." + name, [s] + args, {}, node)
         s.items.append(args[0])
         return K(None)
+    if name in ("intersection", "difference", "union") and args and all(is_pyconst(x) for x in s.items):
+        other = it.iter_items(args[0])
+        if other is not None and all(is_pyconst(x) for x in other):
+            mine, oth = [pyval(x) for x in s.items], [pyval(x) for x in other]
+            if name == "intersection":
+                res = [x for x in mine if x in oth]  # pandas Index.intersection(sort=False) keeps the order of self
+            elif name == "difference":
+                res = sorted(x for x in mine if x not in oth)
+            else:
+                res = mine + [x for x in oth if x not in mine]
+            return Seq([K(x) for x in res], "list")
     if name == "index" and args and is_pyconst(args[0]) and all(is_pyconst(x) for x in s.items):
         return K([pyval(x) for x in s.items].index(pyval(args[0])))
     if name == "copy":
